@@ -17,6 +17,7 @@ mod engine;
 mod engines;
 mod fault;
 mod wl;
+mod world;
 mod minimise;
 mod rng;
 mod stats;
